@@ -853,16 +853,16 @@ def param_types(tier='quick', seed=0):
             continue
         subsets = itertools.product((False, True), repeat=len(nodes))
         subsets = list(subsets)
-        if len(nodes) > 9:
+        if len(nodes) > 7:
             # deep layer: all subsets of size <= 2, the full set, and a seeded sample
             small = [s for s in subsets if sum(s) <= 2 or sum(s) >= len(nodes) - 1]
             rest = [s for s in subsets if not (sum(s) <= 2 or sum(s) >= len(nodes) - 1)]
-            subsets = small + rng.sample(rest, min(len(rest), 60 if tier == 'thorough' else 20))
+            subsets = small + rng.sample(rest, min(len(rest), 120 if tier == 'thorough' else 20))
         for sub in subsets:
             ann = [n for n, s in zip(nodes, sub) if s]
             base = {n: f'e{i}' for i, n in enumerate(ann)}
             variants = [base]
-            specials = ann if (len(nodes) <= 7 or (tier == 'thorough' and len(nodes) <= 9)) else ann[:2]
+            specials = ann if len(nodes) <= 7 else ann[:2]
             for n in specials:
                 variants.append({**base, n: 'default'})
                 variants.append({**base, n: 'root'})
